@@ -340,6 +340,15 @@ def run_shard(shard, acc):
                 if i % 3 == 0 and not any(r["kind"] == "COROUTINE" for r in spec["routines"]):
                     for k, r in enumerate(spec["routines"]):
                         r["kind"], r["name"], r["target"] = "COROUTINE", f"CORO_{k}", None
+                elif i % 3 == 1:
+                    # coroutines between routines of the other types (the compiler accepts `def` and `coro` in one file)
+                    for k, r in enumerate(spec["routines"]):
+                        if rnd.random() < 0.5:
+                            r["kind"], r["name"], r["target"] = "COROUTINE", f"CORO_{k}", None
+                        elif r["kind"] == "COROUTINE":
+                            r["kind"], r["name"], r["target"] = "GENERIC", None, None
+                    if len({r["kind"] == "COROUTINE" for r in spec["routines"]}) == 2:
+                        acc.count("documents_mixing_coroutines_and_routines")
                 doc = doc_from_spec(spec, rnd)
                 root = os.path.join(base, f"d{i}")
                 os.makedirs(root)
